@@ -380,23 +380,21 @@ def cmwValue (buf : Bytes) (p l : Nat) : Option (Option Nat) :=
   if l > nameCmw.length then
     if rd buf (p + nameCmw.length) != chEq then none
     else if l == nameCmw.length + 2 then
-      let tmp := tmpOf (rd buf (p + nameCmw.length + 1))
-      if tmp < cmwDigitLo || tmp > cmwDigitHi then none else some (some tmp)
+      if tmpOf (rd buf (p + nameCmw.length + 1)) < cmwDigitLo || tmpOf (rd buf (p + nameCmw.length + 1)) > cmwDigitHi
+      then none else some (some (tmpOf (rd buf (p + nameCmw.length + 1))))
     else if rd buf (p + nameCmw.length + 1) != chOne then none
-    else
-      let tmp := tmpOf (rd buf (p + nameCmw.length + 2))
-      if tmp > cmwSecondHi then none else some (some (10 + tmp))
+    else if tmpOf (rd buf (p + nameCmw.length + 2)) > cmwSecondHi then none
+    else some (some (10 + tmpOf (rd buf (p + nameCmw.length + 2))))
   else some none
 
 def smwValue (buf : Bytes) (p l : Nat) : Option Nat :=
   if rd buf (p + nameSmw.length) != chEq then none
   else if l == nameSmw.length + 2 then
-    let tmp := tmpOf (rd buf (p + nameSmw.length + 1))
-    if tmp != smwDigit then none else some tmp
+    if tmpOf (rd buf (p + nameSmw.length + 1)) != smwDigit then none
+    else some (tmpOf (rd buf (p + nameSmw.length + 1)))
   else if rd buf (p + nameSmw.length + 1) != chOne then none
-  else
-    let tmp := tmpOf (rd buf (p + nameSmw.length + 2))
-    if tmp > smwSecondHi then none else some (10 + tmp)
+  else if tmpOf (rd buf (p + nameSmw.length + 2)) > smwSecondHi then none
+  else some (10 + tmpOf (rd buf (p + nameSmw.length + 2)))
 
 def classify (buf : Bytes) (fl : Flags) (p l : Nat) : Option Action :=
   if l < nameCmw.length then none
@@ -440,14 +438,27 @@ def paramLoop (buf : Bytes) : Ext → Flags → List (Nat × Nat) → Ext × Opt
       let r := applyAction e fl p a
       paramLoop buf r.1 r.2 rest
 
+/-- `if (!client_offered_c_max_window) client_max_window_bits = 15` -/
+def finCmw (e : Ext) (fl : Flags) : Ext := if !fl.cmw then { e with cmw := cmwDefault } else e
+
+/-- the server announces its own window when the client did not ask and it is below 15 -/
+def finSmw (e : Ext) (fl : Flags) : Ext :=
+  if !fl.smw && decide (e.smw < smwAnnounceBelow) then writeToResponse e .smw e.smw else e
+
+def finCnc (e : Ext) (fl : Flags) : Ext := if !fl.cnc && e.cnc then writeToResponse e .cnc 0 else e
+
+def finSnc (e : Ext) (fl : Flags) : Ext := if !fl.snc && e.snc then writeToResponse e .snc 0 else e
+
+/-- `response[response_length] = 0; accepted = true; alloc_compression(s)` (which replaces a server
+    window of 8 bits by 9) -/
+def finAccept (e : Ext) : Ext :=
+  if e.smw == smwUnsupported then
+    { e with hiWater := max e.hiWater (e.resp.length + 1), accepted := true, smw := smwReplacement }
+  else { e with hiWater := max e.hiWater (e.resp.length + 1), accepted := true }
+
 /-- behind the loop: defaults, the parameters the server adds by itself, NUL, `alloc_compression` -/
 def finalize (e : Ext) (fl : Flags) : Ext :=
-  let e1 := if !fl.cmw then { e with cmw := cmwDefault } else e
-  let e2 := if !fl.smw && decide (e1.smw < smwAnnounceBelow) then writeToResponse e1 .smw e1.smw else e1
-  let e3 := if !fl.cnc && e2.cnc then writeToResponse e2 .cnc 0 else e2
-  let e4 := if !fl.snc && e3.snc then writeToResponse e3 .snc 0 else e3
-  let e5 := { e4 with hiWater := max e4.hiWater (e4.resp.length + 1), accepted := true }
-  if e5.smw == smwUnsupported then { e5 with smw := smwReplacement } else e5
+  finAccept (finSnc (finCnc (finSmw (finCmw e fl) fl) fl) fl)
 
 /-- `fill_requested_extension(s, start, length)`; `buf` = the memory from `start` on, `at` = ghost offset -/
 def fill (e : Ext) (buf : Bytes) (length : Nat) (at_ : Nat := 0) : Ext :=
@@ -456,9 +467,9 @@ def fill (e : Ext) (buf : Bytes) (length : Nat) (at_ : Nat := 0) : Ext :=
     | none => e
     | some sp =>
       if sp.lens.getD 0 0 == extName.length && memEq buf 0 extName then
-        let e0 := { e with resp := extName, items := [], offers := [], elemStart := at_,
-                           hiWater := max e.hiWater extName.length }
-        match paramLoop buf e0 ⟨false, false, false, false⟩ sp.params with
+        match paramLoop buf { e with resp := extName, items := [], offers := [], elemStart := at_,
+                                     hiWater := max e.hiWater extName.length }
+            ⟨false, false, false, false⟩ sp.params with
         | (e', none) => e'
         | (e', some fl) => finalize e' fl
       else e
@@ -487,5 +498,26 @@ def checkExtensions (e : Ext) (mem : Bytes) (length : Nat) : Ext :=
 /-- the whole header callback for one `Sec-WebSocket-Extensions` value -/
 def negotiate (level : Nat) (mem : Bytes) (length : Nat) : Ext :=
   checkExtensions (Ext.init level) mem length
+
+/-! ### what "legal" means for a parameter of the response -/
+
+/-- the text at `q` spells `=N` the way the offer parser reads it -/
+def spelled (buf : Bytes) (q N : Nat) : Prop :=
+  rd buf q = chEq ∧
+  ((N < 10 ∧ tmpOf (rd buf (q + 1)) = N) ∨ (10 ≤ N ∧ rd buf (q + 1) = chOne ∧ 10 + tmpOf (rd buf (q + 2)) = N))
+
+/-- RFC 7692 §7.1: `client_max_window_bits` may be answered only when the offer has it, with a value in
+    8..15 not above the offered one; `server_max_window_bits` in 8..15, not above an offered value (the
+    server may add it on its own); the two `no_context_takeover` parameters carry no value and may always
+    be added by the server.  `offers` = the parameters of the accepted offer, by position in `buf`. -/
+def Legal (buf : Bytes) (offers : List Offer) (it : Item) : Prop :=
+  match it.name with
+  | .cmw => 8 ≤ it.value ∧ it.value ≤ 15 ∧
+      ∃ p ov, Offer.cmw p ov ∈ offers ∧ memEq buf p nameCmw = true ∧
+        ∀ N, ov = some N → it.value ≤ N ∧ spelled buf (p + nameCmw.length) N
+  | .smw => 8 ≤ it.value ∧ it.value ≤ 15 ∧
+      ∀ p N, Offer.smw p N ∈ offers → it.value ≤ N ∧ memEq buf p nameSmw = true ∧ spelled buf (p + nameSmw.length) N
+  | .cnc => it.value = 0
+  | .snc => it.value = 0
 
 end Cjet.Deflate
